@@ -202,6 +202,54 @@ func main() {
 				res = append(res, map[string]any{"code": 0, "path": hx.Hex(p), "rel": rel(dir, p), "exists": statErr == nil})
 			}
 			return map[string]any{"dir": hx.Hex(dir), "links": hx.HexList(links), "res": res}
+		case "existing":
+			// a real store below the scratch directory; getExistingName iterates over a Go map, so every query is
+			// repeated and the set of distinct answers is reported
+			dir, err := os.MkdirTemp(".", "store")
+			if err != nil {
+				return map[string]any{"harness_error": err.Error()}
+			}
+			defer os.RemoveAll(dir)
+			abs := filepath.Join(cwd, dir)
+			os.Setenv("OLLAMA_MODELS", abs)
+			for _, x := range c["stored"].([]any) {
+				q := hx.UnhexList(x)
+				p := filepath.Join(abs, "manifests", q[0], q[1], q[2], q[3])
+				if err := os.MkdirAll(filepath.Dir(p), 0o777); err != nil {
+					return map[string]any{"harness_error": err.Error()}
+				}
+				if err := os.WriteFile(p, []byte("{}"), 0o666); err != nil {
+					return map[string]any{"harness_error": err.Error()}
+				}
+			}
+			ms, err := server.Manifests(true)
+			if err != nil {
+				return map[string]any{"harness_error": err.Error()}
+			}
+			listed := [][]string{}
+			for n := range ms {
+				listed = append(listed, parts(n))
+			}
+			reps := hx.Int(c["reps"])
+			var res []any
+			for _, x := range c["queries"].([]any) {
+				q := hx.UnhexList(x)
+				n := model.Name{Host: q[0], Namespace: q[1], Model: q[2], Tag: q[3]}
+				seen := map[string]bool{}
+				distinct := [][]string{}
+				for i := 0; i < reps; i++ {
+					r, err := server.VerifC13GetExistingName(n)
+					if err != nil {
+						return map[string]any{"harness_error": err.Error()}
+					}
+					if k := r.String() + "|" + r.Host + "|" + r.Tag; !seen[k] {
+						seen[k] = true
+						distinct = append(distinct, parts(r))
+					}
+				}
+				res = append(res, distinct)
+			}
+			return map[string]any{"listed": listed, "res": res}
 		case "splitnd":
 			a, b := server.VerifC13SplitNameDigest(hx.Unhex(c["s"]))
 			return map[string]any{"name": hx.Hex(a), "digest": hx.Hex(b)}
